@@ -33,8 +33,17 @@ def md5(b):
 
 
 # ------------------------------------------------------------------ scenarios
-def frame(typ, plen, k=0, panic=False, mid=None, reply_to=None, rsv=0, ver=1, pseed=0):
-    return dict(rsv=rsv, ver=ver, typ=typ, id=mid or 0, reply_to=reply_to, plen=plen, pseed=pseed, k=k, panic=panic)
+PKINDS = ["string", "error", "index", "nilmap", "nilderef", "typeassert", "divzero", "int", "struct"]
+PK_MODEL = {"string": "p", "error": "pe", "int": "po", "struct": "po"}     # everything else: a runtime.Error ("pr")
+_pk = [0]
+
+
+def frame(typ, plen, k=0, panic=False, mid=None, reply_to=None, rsv=0, ver=1, pseed=0, pkind=None):
+    if panic and pkind is None:           # rotate through the kinds of panic values
+        pkind = PKINDS[_pk[0] % len(PKINDS)]
+        _pk[0] += 1
+    return dict(rsv=rsv, ver=ver, typ=typ, id=mid or 0, reply_to=reply_to, plen=plen, pseed=pseed, k=k, panic=panic,
+                pkind=pkind or "")
 
 
 def ks(n):
@@ -218,15 +227,19 @@ def flatten(sc):
 
 
 NEVER_REPLY = []          # types the code never treats as replies; probed in run()
+CLOSE_PARKS = [False]     # does an unsolicited CloseConnectionResponse park the read loop at EOF? probed in run()
 READER_INITIATED = (61, 62, 63)
 
 
 def oracle_request(sc):
     frames, tail, stream, _, lastreg = flatten(sc)
     hs = sorted(set(sc["handlers"] + ([62] if sc["keep_ack"] else [])))
-    env = ["%s/%s/%d" % (",".join(map(str, f["register"])) or "-", "p" if f["panic"] else "r", f["k"]) for f in frames]
+    env = ["%s/%s/%d" % (",".join(map(str, f["register"])) or "-",
+                         PK_MODEL.get(f.get("pkind") or "string", "pr") if f["panic"] else "r", f["k"]) for f in frames]
     # a header inside the tail is looked up after the sends that followed the last chunk
     env.append("%s/r/0" % (",".join(map(str, lastreg)) or "-"))
+    if CLOSE_PARKS[0]:        # tree without fix ea578f8: as if CloseConnection had always been sent
+        env = [e + "/1" for e in env]
     return "run %d %s %d %s - %s %s" % (LIMIT, ",".join(map(str, hs)) or "-", 1 if sc["default"] else 0,
                                         ",".join(map(str, NEVER_REPLY)) or "-", ";".join(env), stream.hex() or "-")
 
@@ -375,7 +388,7 @@ def property_check(sc, go):
         want = [f["ver"], f["typ"], f["plen"], f["id"]]
         if i >= len(recs) or recs[i]["hdr"] != want:
             got = recs[i]["hdr"] if i < len(recs) else "nothing (stalled=%r, Connect=%s)" % (go["stalled"], go["connect_err"])
-            sig = "panic-ends-connection" if (i > 0 and frames[i - 1]["panic"] and i >= len(recs) and "nobody" not in prev_path) \
+            sig = "panic-ends-connection:%s" % (frames[i - 1].get("pkind") or "string") if (i > 0 and frames[i - 1]["panic"] and i >= len(recs) and "nobody" not in prev_path) \
                 else "misaligned-after:" + prev_path
             fails.append((sig, "frame %d (%s) should be parsed as %s at its own first byte, the client parsed %s; the frame before "
                                "it took the path %s" % (i, path, want, got, prev_path)))
@@ -504,27 +517,31 @@ def run(tier, seed, replay=None):
                 scs += json.load(open(os.path.join(vlib.ROOT, "corpus", n))).get("scenarios", [])
         scs += tail_scenarios() + matrix_scenarios(thorough) + limit_scenarios(thorough)
         scs += random_scenarios(rnd, 1500 if thorough else 150)
-        if thorough:
-            scs += closeresp_scenarios()
 
     # which types does the code exempt from the awaiting lookup?  (none before the C03/F2 fix)
     def probe(typ):
         return dict(name="probe/%d" % typ, handlers=[], default=True, keep_ack=False, step_ms=2000, steps=[
             dict(op="send", caller=0, typ=REQ_T),
             dict(op="chunk", seg="whole", frames=[frame(typ, 3, 0, reply_to=0, pseed=1), frame(T_U, 0, 0, mid=99)])])
-    pa, _, _ = run_go(exe, [probe(t) for t in READER_INITIATED + (T_U,)], 120)
+    cp = closeresp_scenarios()[0]
+    cp = dict(cp, name="probe/closeresp", step_ms=1200)
+    pa, _, _ = run_go(exe, [probe(t) for t in READER_INITIATED + (T_U,)] + [cp], 120)
+    CLOSE_PARKS[0] = (pa.get(4) or {}).get("stalled") == "connect-did-not-return-after-eof"
     del NEVER_REPLY[:]
     for k, t in enumerate(READER_INITIATED + (T_U,)):
         a = pa.get(k) or {}
         cs = a.get("callers") or [{}]
         if cs[0].get("err") != "nil":
             NEVER_REPLY.append(t)
-    res.notes.append("types never treated as replies by this tree (probed): %s" % NEVER_REPLY)
+    res.notes.append("types never treated as replies by this tree (probed): %s; unsolicited CloseConnectionResponse parks "
+                     "the read loop at EOF (probed): %s" % (NEVER_REPLY, CLOSE_PARKS[0]))
     if T_U in NEVER_REPLY:
         res.violation("caller-not-answered:probe", "a reply of an ordinary type (%d) with the id of an outstanding request was not "
                       "delivered to the caller" % T_U, dict(kind="scenario", scenarios=[probe(T_U)]))
         return res.finish()
 
+    if not replay and (thorough or not CLOSE_PARKS[0]):
+        scs += closeresp_scenarios()          # costs a watchdog period on a tree where the loop parks
     answers, crashed, unrun = run_go(exe, scs, 2400 if thorough else 600)
     orc, olines = run_oracle([oracle_request(sc) for sc in scs])
     if orc != 0 or len(olines) != len(scs):
@@ -570,7 +587,8 @@ def run(tier, seed, replay=None):
             if a:
                 aw.discard(f["id"])
             nontriv.add((path_of(sc, f, a), min(f["plen"], 70) if f["plen"] < LIMIT - 1 else f["plen"],
-                         "all" if f["k"] >= f["plen"] else ("none" if f["k"] == 0 else "part"), f["panic"],
+                         "all" if f["k"] >= f["plen"] else ("none" if f["k"] == 0 else "part"),
+                         (f.get("pkind") or "string") if f["panic"] else "",
                          next(st["seg"] for st in sc["steps"] if st["op"] == "chunk")))
         fails = property_check(sc, go)
         diffs = compare(sc, go, model)
